@@ -81,6 +81,10 @@ class C01(MsgProp):
                 yield ("ENC %d %s" % (n, " ".join(head[:c] + g.bias_list(r, fid, "valid", shape=shape))), "bias-" + shape, True)
             for k in FLOOD_SIZES:
                 yield (bias_op(g, r, n, fid, "valid", "flood%d" % k), "bias-flood", True)
+            full = 64 if n == 1059 else 32
+            for ns_ in (3, full - 1, full):
+                for rows_ in (1, 2, 4):
+                    yield (bias_op(g, r, n, fid, "valid", "sigmajor:%dx%d" % (ns_, rows_)), "bias-signal-major", True)
         import itertools
         for n, fid, alpha in ((1059, "df_msg1059_biases", (0, 32, 33, 63)), (1065, "df_msg1065_biases", (0, 16, 30, 31))):
             if n in g.numbers:
@@ -844,6 +848,16 @@ class C16(MsgProp):
                 op = bias_op(g, r, n, fid, "valid", shape)
                 self.plan.append((n, op))
                 yield (op, "bias-" + shape.rstrip("0123456789") + "-dups", True)
+        # periodic listings (signal by signal), with full and nearly full satellite sets
+        for n, fid, full in ((1059, "df_msg1059_biases", 64), (1065, "df_msg1065_biases", 32)):
+            if n not in g.numbers:
+                continue
+            for ns_ in (2, 3, full - 1, full):
+                for rows_ in (1, 2, 3, 4, 6):
+                    if ns_ * rows_ <= 390:
+                        op = bias_op(g, r, n, fid, "valid", "sigmajor:%dx%d" % (ns_, rows_))
+                        self.plan.append((n, op))
+                        yield (op, "bias-signal-major", True)
         # small scope, exhaustive: every sequence of up to 4 satellite ids (5 in the thorough tier) over an alphabet
         # of boundary satellites -- the grouping logic depends on nothing else
         import itertools
